@@ -6,6 +6,9 @@ CHECKS = {
  "C01": dict(level="model_checking", technique="bounded-exhaustive conformance exploration: all expression ASTs <= k nodes x all documents <= n nodes, real evaluator vs reference abstract machine",
    text="Every core-fragment AST up to the size bound is evaluated by the real parser+evaluator on every JSON-model document up to the node bound and compared (ordered results, error/no error, document state afterwards) with a reference abstract machine written from the documentation; the verdict is a coverage statement over that finite product, which is exactly the programs x inputs quantifier the golden tests sample.",
    note="Trusted: the reference machine mc/internal/refsem (points the documentation leaves open are Undef, counted, not compared); fully parenthesised printing (precedence is C09); alphabets Sigma/keys {a,b}.", design="4/C01, 3, appendix A"),
+ "C08": dict(level="model_checking", technique="bounded-exhaustive differential exploration: every vocabulary atom in every operand position x styled documents, full node-graph dump before/after on the real evaluator",
+   text="Every atom of the assignment-free vocabulary is placed alone, in every operand position of the listed unary forms and on both sides of every binary operator, wrapped as `(e) as $x | .` and `.. | select(e)`, and run by the real evaluator on every styled and commented document of the bound; the complete canonical dump of the input's node graph (all fields, pointer structure) must be identical before and after, the yielded nodes must be the original ones and the document must print as before. No reference model is involved, so there is no model/code gap.",
+   note="Trusted: the graph dump covers every exported field of CandidateNode; operators that are in-place by design or read the environment are excluded as the statement excludes them.", design="4/C08"),
  "C16": dict(level="model_checking", technique="explicit-state BFS over derivation pipelines on the real handlers, state = canonical dump of the reachable node graph, invariant checked in every state",
    text="Breadth-first search over pipelines of derivation operators replayed on the real evaluator from every small document; states are de-duplicated by a canonical dump of the complete reachable CandidateNode graph; in every state every node inside every yielded value is checked through the real path/key/parent/keys/traversal handlers.",
    note="Trusted: handlers are functions of the reachable graph and package state; the yielded container itself is exempt; stale sequence indices after 21 listed producer operators are a recorded known finding (root cause AddChild), states violating are not expanded.", design="4/C16"),
